@@ -5,7 +5,7 @@ from vf import modelreplay as mr
 
 def check(tier="quick", seed=0):
     rep = {"name": "replay", "tier": tier, "seed": seed}
-    logs, items, res, n_states = mr.run(["OdeSystemSim_fixed", "OdeSystemSim_fixed_nofault", "OdeSystemSim_adaptive", "OdeSystemSim_adaptive_nofault"], 400 if tier == "quick" else 4000, seed, mr.METHODS)
+    logs, items, res, n_states = mr.run(["OdeSystemSim_fixed", "OdeSystemSim_fixed_nofault", "OdeSystemSim_adaptive", "OdeSystemSim_adaptive_nofault", "OdeSystemSim_fixed_nodense", "OdeSystemSim_adaptive_nodense"], 400 if tier == "quick" else 4000, seed, mr.METHODS)
     by = {}
     for (lg, m), r in zip(items, res):
         for mm in r["mismatches"]:
